@@ -194,7 +194,7 @@ Definition key_marshal (k : key) : res bytes :=
         | None => a end
       else t5
     else t5 in
-  enc (GMap t6).
+  enc false (GMap t6).
 
 (* ---- UnmarshalCBOR ---- *)
 Fixpoint keyop_of_string (t : list (string * Z)) (s : bytes) : option Z :=
